@@ -671,7 +671,8 @@ func (f *SQLFormatter) formatExpression(expr ast.Expression) error {
 			} else {
 				strVal = fmt.Sprintf("%v", e.Value)
 			}
-			escaped := strings.ReplaceAll(strVal, "'", "''")
+			// a backslash starts an escape sequence when the literal is read back
+			escaped := strings.ReplaceAll(strings.ReplaceAll(strVal, "\\", "\\\\"), "'", "''")
 			f.builder.WriteString("'")
 			f.builder.WriteString(escaped)
 			f.builder.WriteString("'")
